@@ -366,9 +366,26 @@ func checkC07(p *Prog, r *Report) {
 		pf, okS = c.Args[0].Name, true
 	}
 	r.Check(okS, kp("ORIGIN", FuncName(bfn)+"#sender=address-parameter"), "the only sender is the address handed in by EndBlock (no other account's balance is touched)", p.Pos(send.Pos()), "sender ≡ AccAddressFromBech32($"+pf+")", fmt.Sprint(sender))
-	// amount = spendable read of the same address
-	okAmt := samt.Op == "call" && len(samt.Args) == 3 && samt.Args[2].Eq(sender) &&
-		(strings.HasSuffix(samt.Name, ".SpendableCoins") || strings.HasSuffix(samt.Name, ".SpendableCoin"))
+	// amount = spendable read of the same address (possibly behind a one-line accessor of the keeper: `return k.bank.SpendableCoins(ctx, a)`)
+	amtRead := samt
+	for i := 0; i < 2; i++ {
+		c, isCall := amtRead.Val.(*ssa.Call)
+		if amtRead.Op != "call" || !isCall || c.Call.StaticCallee() == nil {
+			break
+		}
+		g := c.Call.StaticCallee()
+		if !InModule(g) || g.Blocks == nil || len(g.Blocks) != 1 || len(returnsOf(g)) != 1 || len(returnsOf(g)[0].Results) != 1 || len(callSites(g)) != 1 {
+			break
+		}
+		inner := o.subOrigin(c, g).Of(returnsOf(g)[0].Results[0])
+		if inner == nil || inner.Op != "call" {
+			break
+		}
+		// in the comparison below the sender term must be the caller's: the accessor's arguments were substituted
+		amtRead = inner
+	}
+	okAmt := amtRead.Op == "call" && len(amtRead.Args) == 3 && amtRead.Args[2].Eq(sender) &&
+		(strings.HasSuffix(amtRead.Name, ".SpendableCoins") || strings.HasSuffix(amtRead.Name, ".SpendableCoin"))
 	r.Check(okAmt, kp("ORIGIN", FuncName(bfn)+"#amount=spendable"), "the amount is a spendable-balance read of the sender itself (table of reads bank's SendCoins will accept: SpendableCoins/SpendableCoin)", p.Pos(send.Pos()),
 		"amount ≡ SpendableCoins(ctx, sender)", fmt.Sprintf("amount = %v — a total-balance read makes bank reject the whole send whenever part of the balance is locked (vesting account at the burn address), leaving every spendable coin there", samt))
 	// the coins read are the coins sent: nothing writes into the slice between the spendable-balance read and the bank calls (a
@@ -714,11 +731,25 @@ func checkBurnAccountBlocked(p *Prog, r *Report, kp func(string, string) string,
 			})
 			unblocked = append(unblocked, name)
 		}
+		// the exception may also be written as a skip inside the loop (`if addr == NewModuleAddress(gov).String() { continue }`):
+		// every module name the function mentions by constant is one it treats specially
+		nConst := 0
+		for _, cs := range callSites(ba) {
+			if !strings.HasSuffix(cs.Name, "types.NewModuleAddress") || len(cs.Instr.Common().Args) != 1 {
+				continue
+			}
+			if c, isC := cs.Instr.Common().Args[0].(*ssa.Const); isC && c.Value != nil {
+				nConst++
+				if nm := strings.Trim(c.Value.ExactString(), `"`); !has(unblocked, nm) {
+					unblocked = append(unblocked, nm)
+				}
+			}
+		}
 		okB := !has(unblocked, strings.Trim(modC, `"`)) && !has(unblocked, "?")
 		r.Check(okB, kp("WIRE", "BlockedAddresses∌burn-module"), "the burn module account's address is blocked for incoming transfers and account creation", p.FnPos(ba),
 			fmt.Sprintf("addresses removed from the blocked set: %v", unblocked),
 			fmt.Sprintf("BlockedAddresses unblocks %v: a plain account can be created at the burn module's address before the first burn, after which auth.GetModuleAccount panics inside every burn", unblocked))
-		r.Floor("control:delete-calls-in-BlockedAddresses", nDel, 1)
+		r.Floor("control:exceptions-in-BlockedAddresses", nDel+nConst, 1)
 		passed := false
 		if newFn := p.Func(Rel("app"), "New"); newFn != nil {
 			no := NewOrigin(p, newFn)
